@@ -388,6 +388,18 @@ def wide_task(n):
             rd = os.path.join(r.out_dir(), "run")
             if len(os.listdir(rd)) > 2:
                 viol.append(("too-many-run-directories", "%d run directories with max_retained_runs=2" % len(os.listdir(rd))))
+        # very short runs that reuse the slots of the very large ones
+        for k in range(3):
+            res = r.mr("run", "-c", "build", "-t", ts[0]["path"], env=r.trace_env())
+            trans += 1
+            if res.code != 0:
+                viol.append(("run-did-not-complete", "short run %d after the large ones: exit %s %s" % (k + 1, res.code, res.err[:200])))
+                break
+            time.sleep(0.3)
+            names = sorted(os.listdir(os.path.join(r.out_dir(), "run")))
+            if len(names) > 2:
+                viol.append(("too-many-run-directories", "after a short run reused the slot of a run over %d targets: %s with max_retained_runs=2" % (n, names)))
+                break
         return {"transitions": trans, "obs": [],
                 "violations": [{"sig": sig, "detail": d, "rank": 200000 + n, "case": {"wide": n}} for sig, d in viol]}
     except common.EngineError as e:
